@@ -627,15 +627,30 @@ class _AssertForm(ast.NodeTransformer):
         return node
 
 
+NORMALISER_NOTES = []
+
+
 def desugar_match(tree):
     """normal forms applied once, right after parsing, so that every engine sees spellings it knows: qualified names for
-    `from numpy / math import ..`, method aliases read through, simple `match` statements -> if chains, type(x) ->
-    x.__class__"""
-    tree = _ImportCanon(tree).visit(tree)
+    `from numpy / math import ..`, higher-order spellings made first-order, method aliases read through, simple `match`
+    statements -> if chains, type(x) -> x.__class__, written-out asserts.  Each pass works on its own copy: a pass that
+    fails leaves the tree as it was (the engines then meet the original spelling and say `undecided` where they do not
+    know it) -- a failing normaliser must never take the analysis down, nor change a verdict"""
+    import copy as _copy
     from verifkit import funcnorm
-    tree = funcnorm.normalise(tree)
-    tree = _AliasInline(tree).visit(tree)
-    tree = _MatchDesugar().visit(tree)
-    tree = _TypeCall().visit(tree)
-    tree = _AssertForm().visit(tree)
+    passes = [("import names", lambda t: _ImportCanon(t).visit(t)),
+              ("higher-order spellings", funcnorm.normalise),
+              ("method aliases", lambda t: _AliasInline(t).visit(t)),
+              ("match statements", lambda t: _MatchDesugar().visit(t)),
+              ("type(x)", lambda t: _TypeCall().visit(t)),
+              ("written-out asserts", lambda t: _AssertForm().visit(t))]
+    for label, fn in passes:
+        work = _copy.deepcopy(tree)
+        try:
+            work = fn(work)
+            ast.fix_missing_locations(work)
+            compile(work, "<normalised>", "exec", dont_inherit=True)     # still a well-formed module (nothing is run)
+            tree = work
+        except Exception as ex:                                            # noqa: BLE001
+            NORMALISER_NOTES.append(f"normal-form pass `{label}` skipped: {type(ex).__name__}: {ex}")
     return ast.fix_missing_locations(tree)
